@@ -667,7 +667,8 @@ pub fn run_via(o: &Opts, entry: u8) -> Val {
             match p.try_run() {
                 Ok(v) => v,
                 Err(f) => {
-                    f.print_message(100);
+                    // (a program that prints by hand passes the width it configured)
+                    f.print_message(o.max_width.unwrap_or(100));
                     crate::world::exit(f.exit_code())
                 }
             }
